@@ -363,7 +363,9 @@ func (ps *PruningStorer) Get(key []byte) ([]byte, error) {
 		// search it in active persisters
 		found := false
 		ps.lock.RLock()
-		for idx := uint32(0); (idx < ps.numOfActivePersisters) && (idx < uint32(len(ps.activePersisters))); idx++ {
+		// all the active persisters are searched: there can be more than numOfActivePersisters of them while
+		// older epochs are kept active for a stuck shard (see extendSavedEpochsIfNeeded)
+		for idx := 0; idx < len(ps.activePersisters); idx++ {
 			if ps.bloomFilter == nil || ps.bloomFilter.MayContain(key) {
 				v, err = ps.activePersisters[idx].persister.Get(key)
 				if err != nil {
